@@ -25,6 +25,7 @@ inductive SAct
   | on (mode : Mode) (d : Nat) (trigs : List STrig)
   | withT (mode : Mode) (s : Ref) (trigs : List STrig)
   | once (d : Nat) (trigs : List STrig)
+  | onceFn (d : Nat) (trigs : List STrig)
   | revoke (tok : Nat)
   | run (s : Ref)
   | sysEvent (s : Ref) (ty pid : Nat)
@@ -114,6 +115,7 @@ def parseAct (toks : List String) : Option SAct :=
   | "on" :: m :: d :: ts => do pure (.on (← parseMode m) (← d.toNat?) (← parseTrigs ts))
   | "with" :: m :: s :: ts => do pure (.withT (← parseMode m) (← parseRef s) (← parseTrigs ts))
   | "once" :: d :: ts => do pure (.once (← d.toNat?) (← parseTrigs ts))
+  | "oncefn" :: d :: ts => do pure (.onceFn (← d.toNat?) (← parseTrigs ts))
   | ["revoke", t] => (parseIdx 't' t).map .revoke
   | ["run", s] => (parseRef s).map .run
   | ["flush"] => some .flush
@@ -262,6 +264,7 @@ def resolveAct (sc : Scenario) (s : St) : SAct → Option Act
   | .on m d ts => do pure (Act.on m d (← sc.defs[d]?).excl (← resolveTrigs s ts))
   | .withT m r ts => do pure (Act.withT m (← resolveRef s r) (← resolveTrigs s ts))
   | .once d ts => do let _ ← sc.defs[d]?; pure (Act.once d (← resolveTrigs s ts))
+  | .onceFn d ts => do let _ ← sc.defs[d]?; if d < 4 then pure (Act.onceFn d (← resolveTrigs s ts)) else none
   | .revoke k => (s.tokens[k]?).map (fun t => Act.revoke t.1 t.2)
   | .run r => (resolveRef s r).map Act.run
   | .sysEvent r ty pid => (resolveRef s r).map (Act.sysEvent · ty pid)
@@ -412,6 +415,7 @@ def showEv (s : St) : Ev → String
   | .misclaim sys => s!"ghost misclaim {showName s sys}"
   | .insNoop e ty => s!"ghost insnoop {showName s e} {ty}"
   | .canary sys => s!"canary {showName s sys}"
+  | .noCanary sys => s!"ghost nocanary {showName s sys}"
   | .applied sys => s!"applied {showName s sys}"
   | .abortNoEntity sys => s!"abortnoentity {showName s sys}"
   | .abortNoStorage sys => s!"abortnostorage {showName s sys}"
